@@ -25,7 +25,8 @@ pub fn run(ctx: &mut Ctx) {
             1 => 1,
             2 => 2,
             3 => 255 + crng.below(4) as usize,
-            4 => if ctx.quick() { 1500 } else { 5000 },
+            // beyond one block of any plausible chunked parallel pass (4096), never a multiple of it
+            4 => if ctx.quick() { 4097 + crng.below(1500) as usize } else { *crng.pick(&[4097usize, 5000, 8191, 8193, 10000, 12289]) + crng.below(3) as usize },
             5 => 65 + crng.below(300) as usize,
             _ => crng.below(60) as usize,
         };
